@@ -72,6 +72,19 @@ func c10History(c *core.Ctx, idx, worker int, p *plenc.Plenc, cfg model.Cfg, nam
 			rec.Violation("marshal-error", fmt.Sprintf("[%s] %v %s\n  type %s", name, err, pn, typeString(typ)), caseExtra(tc, v, nil))
 			return
 		}
+		if len(data) > 1 && r.IntN(3) == 0 {
+			// a decode that is rejected half-way, into a target nobody looks at again, is part of the history
+			// too: what it leaves in pooled scratch space, tables or codecs must not reach the next decode
+			for k := 0; k < 2; k++ {
+				junk := reflect.New(typ)
+				if k == 1 {
+					junk.Elem().Set(model.DeepCopy(v))
+				}
+				if err, pn := unmarshal(p, damage(r, data), junk.Interface()); err != nil || pn != "" {
+					rec.Count("rejected_decodes_in_history", 1)
+				}
+			}
+		}
 		// the target: re-used from an earlier decode, a generated prior, or fresh
 		var target reflect.Value
 		kind := r.IntN(6)
@@ -497,7 +510,7 @@ func init() {
 	core.Register(&core.Prop{
 		ID:        "C10",
 		Technique: "history monitor: seeded Marshal/Unmarshal histories on one instance with re-used, pre-populated and stale-tailed targets compared with a reference decoder implementing the merge rules; fresh decodes re-issued along the history; race lane with 8 goroutines sharing the instance",
-		Rule: "every 17th case decodes hand-assembled maps (JSON object codec, string-keyed maps) with an entry that has no key field in second or later position into nil, empty and populated targets; every 13th case decodes hand-assembled messages whose times lack the seconds, the nanoseconds or both parts (field, pointer, nested struct, pointer to struct, existing map key) into fresh and populated targets; every 11th case decodes hand-built maps that name one key 2-4 times into nil, empty and populated targets. Otherwise one history = one fresh Plenc instance, 4 generated types, 50 (thorough 100) operations: marshal a boundary-biased value, decode it into a target that is re-used from an earlier decode / filled with a generated prior / fresh, half of the time after shortening slices in place so their backing arrays keep stale elements; " +
+		Rule: "a third of the operations of a history are preceded by two decodes of a damaged copy of the message (cut, bit flipped, continuation bit set) into throw-away targets, whatever they return. every 17th case decodes hand-assembled maps (JSON object codec, string-keyed maps) with an entry that has no key field in second or later position into nil, empty and populated targets; every 13th case decodes hand-assembled messages whose times lack the seconds, the nanoseconds or both parts (field, pointer, nested struct, pointer to struct, existing map key) into fresh and populated targets; every 11th case decodes hand-built maps that name one key 2-4 times into nil, empty and populated targets. Otherwise one history = one fresh Plenc instance, 4 generated types, 50 (thorough 100) operations: marshal a boundary-biased value, decode it into a target that is re-used from an earlier decode / filled with a generated prior / fresh, half of the time after shortening slices in place so their backing arrays keep stale elements; " +
 			"the target is compared by value with model.Decode(prior, data); a quarter of the decodes are remembered as fresh-target decodes and re-issued later in the history, where they must give the identical result. distinct = (type, configuration, prior-shape, value-shape) hashes",
 		Assume: []string{"model.Decode states the merge rules of the statement; pointer identity and backing-array identity are not part of the property and are not compared"},
 		Plan: func(tier string) []core.Lane {
